@@ -48,7 +48,9 @@ func guardPatterns(r *rand.Rand) *Node {
 	k := Lit(int64(r.Intn(5)))
 	div := func() *Node { return Op([]string{"/", "div", "%", "mod"}[r.Intn(4)], TInt, c, x) }
 	g := func() *Node { return Op([]string{"!=", "ne"}[r.Intn(2)], TBool, x, Lit(int64(0))) }
-	g2 := func() *Node { return Op("not", TBool, Op([]string{"=", "eq", "=="}[r.Intn(3)], TBool, x, Lit(int64(0)))) }
+	g2 := func() *Node {
+		return Op("not", TBool, Op([]string{"=", "eq", "=="}[r.Intn(3)], TBool, x, Lit(int64(0))))
+	}
 	body := func() *Node { return Op([]string{">", "<", ">=", "="}[r.Intn(4)], TBool, div(), k) }
 	and := func(ch ...*Node) *Node { return Op([]string{"and", "&", "&&"}[r.Intn(3)], TBool, ch...) }
 	or := func(ch ...*Node) *Node { return Op([]string{"or", "|", "||"}[r.Intn(3)], TBool, ch...) }
